@@ -51,6 +51,8 @@ try:
                         rc, o = sh(["./check", p, "--tier", "quick"], cwd="/verif", timeout=2400, env=dict(ENV, VERIF_REPO=wt))
                         line = [l for l in o.splitlines() if l.startswith("VIOLATION") or l.startswith("OK ")]
                         rec["checks"][p] = {"rc": rc, "line": (line[0] if line else o[-200:])[:200], "s": round(time.time() - t0)}
+                        if line and line[0].startswith("VIOLATION"):
+                            break  # caught: the other owners need not run
             out.write(json.dumps(rec) + "\n"); out.flush()
 finally:
     subprocess.run(["git", "-C", "/repo", "worktree", "remove", "--force", wt], capture_output=True)
